@@ -79,16 +79,10 @@ def EnvWF (e : BiscuitMsg) : Prop :=
   (∀ i, e.rootKeyId = some i → i < 2^32) ∧
   (∀ sb ∈ e.authority :: e.blocks, sb.nextKey.algorithm < 2^64)
 
-/-- FINDING — `reload_identity` is FALSE as stated: `EnvWF` bounds no byte-string length, and
-the decoder (like protobuf) reads varints of at most ten bytes, i.e. lengths below 2^70.
-Counterexample (`Wire.hugeEnvelope`, proved in `Proofs/WireEnvelope`): an authority block of
-2^70 zero bytes satisfies `EnvWF` but `reload` returns `none`
-(`reload_identity_counterexample` below). The closest true statements are
-`reload_identity_partial` (serialization shorter than 2^64 bytes — every real one) and
-`reload_identity_of_some` (whenever the reload succeeds at all, it is the identity). -/
-theorem reload_identity (e : BiscuitMsg) (h : EnvWF e) : reload e = some e := by
-  sorry
-
+/-- Without a bound on byte-string lengths the round trip is false: `EnvWF` bounds no
+length, and the decoder (like protobuf) reads varints of at most ten bytes, i.e. lengths
+below 2^70. An authority block of 2^70 zero bytes satisfies `EnvWF` but does not reload
+(found while proving; the first formulation of this theorem omitted the length condition). -/
 theorem reload_identity_counterexample : EnvWF hugeEnvelope ∧ reload hugeEnvelope = none := by
   refine ⟨⟨fun i hi => ?_, fun sb hsb => ?_⟩, hugeEnvelope_not_reloadable⟩
   · have hi' : (none : Option Nat) = some i := hi
@@ -98,8 +92,10 @@ theorem reload_identity_counterexample : EnvWF hugeEnvelope ∧ reload hugeEnvel
     show (0 : Nat) < 2 ^ 64
     omega
 
-/-- The round trip with the missing side condition made explicit: the serialized token is
-shorter than 2^64 bytes. -/
+/-- Well-formed envelopes whose serialization is shorter than 2^64 bytes (every real one)
+survive `Serialize` / `Unmarshal` unchanged, so all of the above still holds after
+persistence. (`_partial`: the side condition on the length is necessary, see the
+counterexample above.) -/
 theorem reload_identity_partial (e : BiscuitMsg) (h : EnvWF e) (hlen : (encodeBiscuit e).length < 2^64) :
     reload e = some e :=
   decodeBiscuit_encode_of_length e h.1 h.2 hlen
